@@ -14,7 +14,7 @@
 //
 // SPDX-License-Identifier: Apache-2.0
 
-use super::Mutator;
+use super::{should_mutate, Mutator};
 use crate::generator::{EntropySource, GenerationSource};
 
 /// Applies boundary value mutations (0, -1, MAX, MIN).
@@ -27,7 +27,7 @@ impl Mutator for BoundaryMutator {
     }
 
     fn mutate_int(&self, _value: i32, source: &mut GenerationSource, rate: f64) -> Option<i32> {
-        if source.gen_f64() > rate {
+        if !should_mutate(source, rate) {
             return None;
         }
         let boundaries = [0, -1, 1, i32::MAX, i32::MIN];
@@ -35,7 +35,7 @@ impl Mutator for BoundaryMutator {
     }
 
     fn mutate_long(&self, _value: i64, source: &mut GenerationSource, rate: f64) -> Option<i64> {
-        if source.gen_f64() > rate {
+        if !should_mutate(source, rate) {
             return None;
         }
         let boundaries = [0, -1, 1, i64::MAX, i64::MIN];
@@ -43,7 +43,7 @@ impl Mutator for BoundaryMutator {
     }
 
     fn mutate_float(&self, _value: f64, source: &mut GenerationSource, rate: f64) -> Option<f64> {
-        if source.gen_f64() > rate {
+        if !should_mutate(source, rate) {
             return None;
         }
         let boundaries = [
